@@ -284,6 +284,35 @@ InnerOut(c) == LET e == EncInner(InnerVal(c)) IN
    variants |-> WithDec(<< Rep(0, Len(e)), <<>>, Take(e, c.clen + c.tz), e \o << 0 >> >>, DecInner)]
 InnerOK(c) == LET d == DecInner(EncInner(InnerVal(c))) IN d.ok /\ d.h = InnerVal(c)
 
+\* whole DTLSPlaintext records (RFC 6347 4.1: header + fragment of the DECLARED length) as RecordLayer.Unmarshal takes them:
+\* the fragment is exactly the len bytes behind the header - bytes beyond it belong to the next record, fewer bytes are a
+\* truncation.  Bodies: change_cipher_spec (1 byte, value 1), alert (2 bytes), application data (any length, 0 included)
+Plain12Cases == [type : {CT_ccs, CT_alert, CT_appdata}, blen : {0, 1, 2, 5}, epoch : {0, 1}]
+Plain12Body(c) == IF c.type = CT_ccs THEN << 1 >> ELSE IF c.type = CT_alert THEN << 2, 40 >> ELSE FillNZ(70, c.blen)
+Plain12Val(c) == [hdr |-> [type |-> c.type, ver |-> V12, epoch |-> c.epoch, seq |-> SeqB[3], cid |-> <<>>, len |-> Len(Plain12Body(c))],
+                  body |-> Plain12Body(c)]
+EncPlain12(r) == EncHdr12(r.hdr) \o r.body
+BodyOK(t, body) == CASE t = CT_ccs -> body = << 1 >>
+                     [] t = CT_alert -> Len(body) = 2
+                     [] t = CT_appdata -> TRUE
+                     [] OTHER -> FALSE
+DecPlain12(b) ==
+  LET d == DecHdr12(b, 0) IN
+  IF ~d.ok THEN Reject
+  ELSE IF Broken = "plain_ignores_len"          \* the pinned tree: everything behind the header is the fragment
+       THEN LET body == SubSeq(b, 14, Len(b)) IN
+            IF ~BodyOK(d.h.type, body) THEN Reject ELSE [ok |-> TRUE, used |-> Len(b), h |-> [hdr |-> d.h, body |-> body]]
+  ELSE IF Len(b) - 13 < d.h.len THEN Reject
+  ELSE LET body == SubSeq(b, 14, 13 + d.h.len) IN
+       IF ~BodyOK(d.h.type, body) THEN Reject
+       ELSE [ok |-> TRUE, used |-> 13 + d.h.len, h |-> [hdr |-> d.h, body |-> body]]
+Plain12Out(c) == LET e == EncPlain12(Plain12Val(c)) IN
+  [k |-> "plain12", val |-> Plain12Val(c), enc |-> e, variants |-> WithDec(Prefixes(e) \o Trails(e), DecPlain12)]
+Plain12OK(c) == LET e == EncPlain12(Plain12Val(c))  d == DecPlain12(e) IN
+  /\ d.ok /\ d.h = Plain12Val(c) /\ d.used = Len(e)
+  /\ \A i \in 1..Len(e) : ~DecPlain12(Take(e, i - 1)).ok          \* every truncation is refused
+  /\ LET t == DecPlain12(e \o << 0 >>) IN t.ok /\ t.h = Plain12Val(c)   \* trailing bytes never reach the value
+
 \* all byte strings up to a length over an alphabet that hits the type, flag and length fields
 Alpha == {0, 1, 2, 21, 25, 47, 63, 255}
 StrCases == UNION {[1..n -> Alpha] : n \in 0..(IF Big THEN 5 ELSE 4)}
@@ -475,6 +504,7 @@ Cases ==
     [] Mode = "rec13" -> Rec13Cases
     [] Mode = "hdr12" -> Hdr12Cases
     [] Mode = "uhdr" -> UHdrCases
+    [] Mode = "plain12" -> Plain12Cases
     [] Mode = "hshdr" -> HsHdrCases
     [] Mode = "alert" -> AlertCases
     [] Mode = "ack" -> AckCases
@@ -495,6 +525,7 @@ Out(c) ==
     [] Mode = "rec13" -> Rec13Out(c)
     [] Mode = "hdr12" -> Hdr12Out(c)
     [] Mode = "uhdr" -> UHdrOut(c)
+    [] Mode = "plain12" -> Plain12Out(c)
     [] Mode = "hshdr" -> HsHdrOut(c)
     [] Mode = "alert" -> AlertOut(c)
     [] Mode = "ack" -> AckOut(c)
@@ -515,6 +546,7 @@ OK(c) ==
     [] Mode = "rec13" -> Rec13OK(c)
     [] Mode = "hdr12" -> Hdr12OK(c)
     [] Mode = "uhdr" -> UHdrOK(c)
+    [] Mode = "plain12" -> Plain12OK(c)
     [] Mode = "hshdr" -> HsHdrOK(c)
     [] Mode = "alert" -> AlertOK(c)
     [] Mode = "ack" -> AckOK(c)
